@@ -4,6 +4,7 @@ The generated portable compression functions equal the specification's compressi
 import B3.Spec
 import B3.Gen.Consts
 import B3.Gen.RsPortable
+import B3.Gen.RefCompress
 namespace B3.Proofs
 open B3
 
@@ -80,6 +81,52 @@ theorem rs_compress_in_place_eq (cv : CV) (block : St) (bl : UInt8) (t : UInt64)
       = first8 (Spec.compress cv block t bl.toUInt32 fl.toUInt32) := by
   unfold Gen.Rs.compress_in_place Spec.compress
   rw [rs_compress_pre_eq]
+  generalize Spec.rounds7 _ _ = v
+  rw [vec16_eta v, vec8_eta cv]
+  generalize v[0] = a0; generalize v[1] = a1; generalize v[2] = a2; generalize v[3] = a3
+  generalize v[4] = a4; generalize v[5] = a5; generalize v[6] = a6; generalize v[7] = a7
+  generalize v[8] = a8; generalize v[9] = a9; generalize v[10] = a10; generalize v[11] = a11
+  generalize v[12] = a12; generalize v[13] = a13; generalize v[14] = a14; generalize v[15] = a15
+  rfl
+
+end B3.Proofs
+
+/-! ### reference_impl.rs -/
+namespace B3.Proofs
+open B3
+
+theorem ref_g_eq : @Gen.Ref.g = @Spec.g := rfl
+
+theorem ref_round_eq (s m : St) : Gen.Ref.round s m = Spec.round s m := by
+  unfold Gen.Ref.round
+  simp only [ref_g_eq]
+  rfl
+
+theorem ref_perm : Gen.Ref.MSG_PERMUTATION = Spec.sigma := by decide
+
+theorem ref_permute_eq (m : St) : Gen.Ref.permute m = Spec.permute m := by
+  unfold Gen.Ref.permute Spec.permute
+  rw [vec16_eta m]
+  generalize m[0] = a0; generalize m[1] = a1; generalize m[2] = a2; generalize m[3] = a3
+  generalize m[4] = a4; generalize m[5] = a5; generalize m[6] = a6; generalize m[7] = a7
+  generalize m[8] = a8; generalize m[9] = a9; generalize m[10] = a10; generalize m[11] = a11
+  generalize m[12] = a12; generalize m[13] = a13; generalize m[14] = a14; generalize m[15] = a15
+  rfl
+
+theorem ref_iv : Gen.Ref.IV = Spec.IV := by decide
+
+theorem ref_compress_rounds_eq (cv : CV) (m : St) (t : UInt64) (b d : UInt32) :
+    Gen.Ref.compress_rounds cv m t b d = Spec.rounds7 (Spec.initState cv t b d) m := by
+  unfold Gen.Ref.compress_rounds Spec.rounds7
+  simp only [ref_round_eq, ref_permute_eq]
+  rw [ref_iv]
+  rfl
+
+set_option maxHeartbeats 4000000 in
+theorem ref_compress_eq (cv : CV) (m : St) (t : UInt64) (b d : UInt32) :
+    Gen.Ref.compress cv m t b d = Spec.compress cv m t b d := by
+  unfold Gen.Ref.compress Spec.compress
+  rw [ref_compress_rounds_eq]
   generalize Spec.rounds7 _ _ = v
   rw [vec16_eta v, vec8_eta cv]
   generalize v[0] = a0; generalize v[1] = a1; generalize v[2] = a2; generalize v[3] = a3
